@@ -130,6 +130,12 @@ func VerifC11OneWriterOneReader() {
 	ok := false
 	atEnd := vObserve(snaps, func(view *vfs.FS) {
 		rc := &Cache{dir: vDir, now: vfs.Now}
+		// goroutines of one process may share a *Cache: a lookup must not leave anything in it
+		// (the cache directory is the only state the operations share)
+		before := *rc
+		defer func() {
+			rt.Assert(rt.SameState(before, *rc), "lookup-leaves-the-cache-object-unchanged")
+		}()
 		if useFile {
 			file, entry, err := rc.GetFile(id)
 			if err != nil {
